@@ -86,7 +86,7 @@ func downstreamKey(reqs []*recorded) string {
 	var ks []string
 	for _, rq := range reqs {
 		vb, _ := json.Marshal(rq.Variables)
-		body := rq.Query
+		body := "<unparsable document>" // e.g. an empty fragment body (a recorded finding): compared by destination only
 		if rq.Doc != nil && len(rq.Doc.Operations) > 0 {
 			var paths []string
 			goSelPaths("", rq.Doc.Operations[0].SelectionSet, &paths)
